@@ -14,8 +14,11 @@
 // of the op (Tracked elements) + number of live elements.
 // Oracle = std::vector / std::string mirror built from the arguments only,
 // the lifetime ledger of the Tracked element type, canaries, ASan.
-#include "C14/machine.h"
+#include "C14/prelude.h"
 #include <igris/container/unbounded_array.h>
+// the library: flags of the command line; the generator and the harness machines: no optimisation (see C14/twin_c.h)
+#pragma GCC optimize("O0")
+#include "C14/machine.h"
 
 using namespace hv;
 using namespace c14;
@@ -26,9 +29,60 @@ using namespace c14;
 //   unew r n | ufrom r v… | uil r v… | ucopy r s | umove r s | uassign r s |
 //   uresize r n | ufill r x | uset r i x | uclear r | udel r | finish
 // Observable: size + contents of every array, number of live elements.
+// an allocator that fails on command: the next allocate() throws std::bad_alloc
+struct AllocCtl
+{
+    static bool &fail_next()
+    {
+        static bool f = false;
+        return f;
+    }
+    // the allocator contract: deallocate(p, n) gets the n that allocate(n) returned p for (ASan does not see a
+    // wrong n of 0), every block is released once
+    static std::map<void *, size_t> &blocks()
+    {
+        static std::map<void *, size_t> m;
+        return m;
+    }
+};
+template <class T> struct ThrowAlloc
+{
+    using value_type = T;
+    ThrowAlloc() = default;
+    template <class U> ThrowAlloc(const ThrowAlloc<U> &) {}
+    T *allocate(size_t n)
+    {
+        if (AllocCtl::fail_next())
+        {
+            AllocCtl::fail_next() = false;
+            throw std::bad_alloc();
+        }
+        T *p = std::allocator<T>().allocate(n);
+        AllocCtl::blocks()[(void *)p] = n;
+        return p;
+    }
+    void deallocate(T *p, size_t n)
+    {
+        if (!p) return; // invalidate() of an empty array
+        auto it = AllocCtl::blocks().find((void *)p);
+        if (it == AllocCtl::blocks().end())
+        {
+            L().err("deallocate of a block that is not allocated");
+            return;
+        }
+        if (it->second != n)
+            L().err("deallocate(p, " + std::to_string(n) + ") of a block of " + std::to_string(it->second) + " elements");
+        size_t real = it->second;
+        AllocCtl::blocks().erase(it);
+        std::allocator<T>().deallocate(p, real);
+    }
+    bool operator==(const ThrowAlloc &) const { return true; }
+    bool operator!=(const ThrowAlloc &) const { return false; }
+};
+
 template <class T> struct UMachine : IMachine
 {
-    using Arr = igris::unbounded_array<T>;
+    using Arr = igris::unbounded_array<T, ThrowAlloc<T>>;
     using ET = ElemTraits<T>;
     struct Reg
     {
@@ -42,6 +96,7 @@ template <class T> struct UMachine : IMachine
     {
         L().reset();
         L().loose = true;
+        AllocCtl::blocks().clear();
     }
     ~UMachine() override { L().reset(); }
     bool has(int r) { return r >= 0 && r < K && regs[r].a; }
@@ -58,16 +113,52 @@ template <class T> struct UMachine : IMachine
         regs[r].ref.clear();
         regs[r].place.reset();
     }
-    void op(const std::vector<std::string> &w, hv::out &o) override
+    void op(const std::vector<std::string> &w0, hv::out &o) override
     {
+        // `uthr k <op>`: the (k+1)-th element construction inside <op> throws; `ubad <op>`: the allocation inside
+        // <op> throws std::bad_alloc.  The reference is computed from the arguments alone.
+        std::vector<std::string> wbuf;
+        long thr = -1;
+        bool badalloc = false;
+        if (w0[0] == "uthr")
+        {
+            if (w0.size() < 3) { o.result = "bad-op"; return; }
+            if (!ET::trk) { o.result = "bad"; return; } // int has no constructor that could throw
+            thr = atol(w0[1].c_str());
+            wbuf.assign(w0.begin() + 2, w0.end());
+        }
+        else if (w0[0] == "ubad")
+        {
+            if (w0.size() < 2) { o.result = "bad-op"; return; }
+            badalloc = true;
+            wbuf.assign(w0.begin() + 1, w0.end());
+        }
+        const std::vector<std::string> &w = (thr >= 0 || badalloc) ? wbuf : w0;
         const std::string &c = w[0];
         auto R = [&](size_t i) { return i < w.size() ? atoi(w[i].c_str()) : -1; };
         int r = R(1), s = R(2);
-        bool bad = false;
+        bool bad = false, thrown = false;
+        if ((thr >= 0 || badalloc) && !(c == "unew" || c == "ufrom" || c == "uil" || c == "ucopy" || c == "uassign" || c == "uresize"))
+        {
+            o.result = "bad"; // the other operations neither allocate nor construct
+            return;
+        }
+        L().throw_in = thr;
+        AllocCtl::fail_next() = false;
+        try
+        {
         if (c == "unew")
         {
             if (!empty_reg(r) || s < 0) bad = true;
-            else { regs[r].a = new (place(r)) Arr((size_t)s); regs[r].ref.assign((size_t)s, 0); }
+            else
+            {
+                void *m = place(r);
+                AllocCtl::fail_next() = badalloc;
+                { Strict _g;
+                regs[r].a = new (m) Arr((size_t)s);
+                }
+                regs[r].ref.assign((size_t)s, 0);
+            }
         }
         else if (c == "ufrom" || c == "uil")
         {
@@ -79,10 +170,13 @@ template <class T> struct UMachine : IMachine
                     std::vector<T> src;
                     src.reserve(xs.size());
                     for (int x : xs) src.emplace_back(x);
+                    void *m = place(r);
+                    AllocCtl::fail_next() = badalloc;
+                    Strict _g;
                     if (c == "ufrom")
-                        regs[r].a = new (place(r)) Arr((const T *)src.data(), src.size());
+                        regs[r].a = new (m) Arr((const T *)src.data(), src.size());
                     else
-                        regs[r].a = new (place(r)) Arr(make_il<T>(src.data(), src.size()));
+                        regs[r].a = new (m) Arr(make_il<T>(src.data(), src.size()));
                 }
                 regs[r].ref = xs;
             }
@@ -90,18 +184,41 @@ template <class T> struct UMachine : IMachine
         else if (c == "ucopy" || c == "umove")
         {
             if (!empty_reg(r) || !has(s)) bad = true;
-            else if (c == "ucopy") { regs[r].a = new (place(r)) Arr(*(const Arr *)regs[s].a); regs[r].ref = regs[s].ref; }
+            else if (c == "ucopy")
+            {
+                void *m = place(r);
+                AllocCtl::fail_next() = badalloc;
+                { Strict _g;
+                regs[r].a = new (m) Arr(*(const Arr *)regs[s].a);
+                }
+                regs[r].ref = regs[s].ref;
+            }
             else { regs[r].a = new (place(r)) Arr(std::move(*regs[s].a)); regs[r].ref = regs[s].ref; regs[s].ref.clear(); }
         }
         else if (c == "uassign")
         {
             if (!has(r) || !has(s)) bad = true;
-            else { *regs[r].a = *(const Arr *)regs[s].a; regs[r].ref = regs[s].ref; if (r == s) o.tag("self-assign"); }
+            else
+            {
+                AllocCtl::fail_next() = badalloc && r != s;
+                { Strict _g;
+                *regs[r].a = *(const Arr *)regs[s].a;
+                }
+                regs[r].ref = regs[s].ref;
+                if (r == s) o.tag("self-assign");
+            }
         }
         else if (c == "uresize")
         {
             if (!has(r) || s < 0) bad = true;
-            else { regs[r].a->resize((size_t)s); regs[r].ref.assign((size_t)s, 0); }
+            else
+            {
+                AllocCtl::fail_next() = badalloc;
+                { Strict _g;
+                regs[r].a->resize((size_t)s);
+                }
+                regs[r].ref.assign((size_t)s, 0);
+            }
         }
         else if (c == "ufill")
         {
@@ -130,9 +247,33 @@ template <class T> struct UMachine : IMachine
                 if (has(q)) drop(q);
             if (ET::trk && (L().ctors != L().dtors || !L().live.empty()))
                 o.fail("constructed " + std::to_string(L().ctors) + " destroyed " + std::to_string(L().dtors));
+            if (!AllocCtl::blocks().empty())
+            {
+                o.fail(std::to_string(AllocCtl::blocks().size()) + " block(s) never deallocated");
+                AllocCtl::blocks().clear();
+            }
         }
-        else { o.result = "bad-op"; return; }
+        else { L().throw_in = -1; o.result = "bad-op"; return; }
+        }
+        catch (const Thrown &) { thrown = true; }
+        catch (const std::bad_alloc &) { thrown = true; }
+        L().throw_in = -1;
+        AllocCtl::fail_next() = false;
         if (bad) { o.result = "bad"; return; }
+        if (thrown)
+        {
+            // what the failed call leaves: a constructor no object and nothing it constructed; resize /
+            // operator= an empty array (the old elements are gone, what was constructed is destroyed again)
+            o.tag("threw");
+            o.tag(badalloc ? "alloc-threw" : "ctor-threw");
+            if (c == "uresize" || c == "uassign") regs[r].ref.clear();
+            else
+            {
+                regs[r].a = nullptr;
+                regs[r].ref.clear();
+                regs[r].place.reset();
+            }
+        }
         std::string st;
         size_t total = 0;
         for (int q = 0; q < K; q++)
@@ -165,6 +306,8 @@ template <class T> struct UMachine : IMachine
         }
         else
             o.result = st + " | -";
+        if (thr >= 0 || badalloc)
+            o.result += thrown ? " | threw" : " | done";
     }
 };
 
@@ -1172,6 +1315,60 @@ static void gen_erase_throw(rng &r, bool thorough)
     P("finish");
 }
 
+// unbounded_array: element constructors / the allocator throw.  Every constructing operation at every size 0..3
+// with the throw at EVERY construction (k = 0 .. n; the last = nothing throws) and with a failing allocation,
+// followed by operations that step on what the failed call left behind.
+static void gen_ua_throw(rng &r, bool thorough)
+{
+    for (const char *ty : {"int", "trk"})
+    {
+        bool trk = ty[0] == 't';
+        for (int n = 0; n <= 3; n++)
+            for (int l = 0; l <= 2; l++)
+            {
+                std::vector<std::string> ops = {"unew 2 " + S(n), "ufrom 2" + vals(r, n), "uil 2" + vals(r, n), "uresize 0 " + S(n),
+                                                "uassign 0 1", "ucopy 2 1", "uassign 1 1", "ufill 0 3"};
+                for (auto &op : ops)
+                    for (int k = -1; k <= std::max(n, l); k++) // -1: the allocation fails
+                    {
+                        if (k >= 0 && !trk && k > 0) continue; // int: `uthr` is outside the contract, once is enough
+                        P(std::string("reset ua ") + ty + " 3");
+                        P("ufrom 0" + vals(r, (int)r.range(0, 3)));
+                        P("ufrom 1" + vals(r, l));
+                        P((k < 0 ? std::string("ubad ") : "uthr " + S(k) + " ") + op);
+                        P("uset 0 0 " + S(val(r)));
+                        P("ufill 0 " + S(val(r)));
+                        P("unew 2 1"); // valid exactly when a constructor threw (there is no object)
+                        if (r.chance(50)) P("uthr " + S(r.range(0, 2)) + " uresize 0 " + S(r.range(0, 3)));
+                        if (r.chance(50)) P("uassign 1 0");
+                        if (r.chance(30)) P("ubad uassign 2 0");
+                        if (r.chance(30)) P("uresize 0 2");
+                        P("finish");
+                    }
+            }
+        for (int q = 0; q < (thorough ? 200 : 8); q++)
+        {
+            P(std::string("reset ua ") + ty + " 3");
+            int nops = (int)r.range(8, 30);
+            for (int t = 0; t < nops; t++)
+            {
+                int a = (int)r.below(3), b = (int)r.below(3), w = (int)r.below(100);
+                std::string op;
+                if (w < 20) op = "unew " + S(a) + " " + S(r.range(0, 4));
+                else if (w < 35) op = "ufrom " + S(a) + vals(r, (int)r.range(0, 4));
+                else if (w < 45) op = "ucopy " + S(a) + " " + S(b);
+                else if (w < 65) op = "uassign " + S(a) + " " + S(b);
+                else if (w < 85) op = "uresize " + S(a) + " " + S(r.range(0, 4));
+                else if (w < 92) op = "udel " + S(a);
+                else op = "uclear " + S(a);
+                if (w < 85 && r.chance(40)) op = (r.chance(25) ? std::string("ubad ") : "uthr " + S(r.range(0, 3)) + " ") + op;
+                P(op);
+            }
+            P("finish");
+        }
+    }
+}
+
 static void gen_ua(rng &r, bool thorough)
 {
     for (const char *ty : {"int", "trk"})
@@ -1238,6 +1435,7 @@ int main(int argc, char **argv)
             gen_write(r, th);
             gen_erase_throw(r, th);
             gen_edge(r, th);
+            gen_ua_throw(r, th);
         },
         run_op);
 }
